@@ -111,7 +111,7 @@ def rebuilt_graph_differs(mol, expect):
 def check(rep):
     import gbigsmiles
 
-    coq = fw.coq_check("C17", ["SrcBond"])
+    coq = fw.coq_check("C17", ["SrcBond", "SrcAGraph"])
     quick = rep.tier == "quick"
     rnd = random.Random(rep.seed + 17)
     texts = [("documented", t) for t in gi.DOCUMENTED] + [(a, t) for a, t, _ in gi.cases(rnd.randrange(1 << 30), 220 if quick else 10000)]
